@@ -709,7 +709,7 @@ func runLibrary(total int) {
 					markHangConfirmed("lib-hang/" + w.Entry)
 					run.Violation("lib-hang/"+w.Entry, fmt.Sprintf("%s does not return within %v on this input (3/3 alone)", w.Entry, 2*scriptWdog), w)
 				} else {
-					run.Inconclusive("library case %d (%s) exceeded the watchdog once, reproduced %d/3", at, w.Entry, same.Load())
+					run.Inconclusive("library case %d (%s) exceeded the watchdog once, reproduced %d/3; main goroutine was in: %s", at, w.Entry, same.Load(), mainGoroutine(string(logb)))
 				}
 			default:
 				kind, msg, frames := crashInfo(string(logb))
